@@ -12,7 +12,9 @@ CONFIG = dict(
           "seeded random pairs biased to value in {n-1,n,n+1}; EveryN on the same grid, all n<=12 x v<=36, random multiples and "
           "non-multiples; OptimumReached on 10 tolerances x 12 best values (incl. none, +inf, 1 ulp above the edge) x 5 optima "
           "plus random edges optimum+eps +-1ulp; ChangeOf over ALL value histories of length <=5 over {5,6,8} for PartialEqChecker "
-          "and DeltaEqChecker thresholds 0,1,2, plus random histories of length <=30 (also next to u32::MAX); all Boolean formulas "
+          "and DeltaEqChecker thresholds 0,1,2, plus random histories of length <=30 (also next to u32::MAX), and over objective values "
+          "(BestObjectiveValueLens, thresholds 0/0.1/0.15/1/inf and PartialEq: all histories of length <=3 over 8 values incl. +inf, "
+          "random longer ones); all Boolean formulas "
           "of depth <=2 with up to 3 children per connective over operands a,b,c under all 27 outcome assignments (true/false/error), "
           "all depth-3 formulas with <=2 children under the 8 Boolean assignments plus sampled error assignments (all 27 in the "
           "thorough tier), every operand occurrence individually tagged and logging its evaluations; RandomChance with a scripted "
@@ -43,6 +45,7 @@ CONFIG.update(
     level_note=("Trusted: Lean kernel; rand 0.8.8 word-to-bool mapping as modelled (checked on scripted words); the State registry; "
                 "native double arithmetic for the progress value. Theorems about progress = 1 and OptimumReached are in exact (ordered "
                 "field) arithmetic; the float side is checked by K/O only. Observation (not a violation of the stated property): with "
-                "n = 0 LessThanN reports progress 0/0 = NaN. Known finding: EveryN with n = 0 panics (remainder by zero); the "
-                "constructor accepts any u32 and the documentation does not exclude 0."),
+                "n = 0 LessThanN reports progress 0/0 = NaN. Known findings: EveryN with n = 0 panics (remainder by zero); the "
+                "constructor accepts any u32 and the documentation does not exclude 0. ChangeOf + DeltaEqChecker<SingleObjective> "
+                "fires on every evaluation while the value stays +inf (inf - inf = NaN)."),
 )
